@@ -213,6 +213,7 @@ func cmdSelftest(args []string) int {
 	par := fs.Int("j", 8, "parallel variants")
 	kind := fs.String("kind", "", "only must-fire or must-stay-silent entries")
 	only := fs.String("only", "", "only entries whose name contains this")
+	report := fs.String("report", "", "write all results as JSON to this file")
 	fs.Parse(args)
 	corpusKind, corpusOnly = *kind, *only
 	rs := runCorpus(*repo, *verif, *prop, *par)
@@ -226,6 +227,10 @@ func cmdSelftest(args []string) int {
 		}
 	}
 	fmt.Printf("selftest: %d variants: %v\n", len(rs), tally(rs))
+	if *report != "" {
+		b, _ := json.MarshalIndent(rs, "", " ")
+		os.WriteFile(*report, b, 0o644)
+	}
 	if bad > 0 {
 		return 1
 	}
